@@ -5,6 +5,10 @@ V = os.path.dirname(os.path.dirname(os.path.abspath(__file__)))
 
 # id -> (technique, level text, level note, design ref)
 CHECKS = {
+ "C20": ("differential testing of four builds of the parser (feature sets utf8, core, core+utf8, none) on proptest-generated 7-bit grammar streams and boundary-length OSC payloads, against each other and the reference VT parser; truncation predicate for oversize payloads",
+         "Differential generated-input search across configurations: the same inputs are parsed by four separately compiled worker binaries; within the documented limit all logs must be identical and equal to the reference model, beyond it the fixed-buffer builds must satisfy a truncation predicate (no panic, <= 1024 bytes, prefix fields, same terminator, other events identical).",
+         "Trusted: the reference VT parser; cargo feature unification is avoided by building the worker package four times outside the harness workspace.",
+         "DESIGN.md §4-C20"),
  "C19": ("generated cases run in child processes whose stdout/stderr are pipes; a gated Display fragment yields to a contender thread in the middle of a formatted write (harness-owned scheduling point) + free-running multi-thread stress; record-grammar oracle on the bytes read from the pipe; register window check for the global colour choice",
          "Generated-input search over (mode, stream, API, thread count, fragment count, gate position); the schedule-dependence is attacked by construction: the gate makes a second thread attempt a complete print while a formatted write is in progress, so a stream that does not hold its lock for the whole call interleaves deterministically. The oracle is the record grammar of the pipe contents (every record contiguous, complete, in per-thread order, payload stripped/verbatim as the mode requires).",
          "Trusted: OS pipes preserve write order; the 8 ms gate time-out can hide but never create a violation; only one scheduling point per gated print is owned, other interleavings come from stress; weaker memory orderings of the global register are not observable on x86 (stated limit).",
